@@ -343,6 +343,17 @@ class Gen:
             both([0, 7], [7], "lead0")
             both([], [0], "empty-vs-zero")
             both([], [7], "empty-vs-one")
+        if not self.thorough:
+            # quick tier: every relation kind once (first occurrence), plus a random handful of the rest
+            kinds, keep, rest = set(), [], []
+            for c in out:
+                k = c.tag.split("-")[1] + ("-rev" if "-rev-" in c.tag else "")
+                if k not in kinds:
+                    kinds.add(k)
+                    keep.append(c)
+                else:
+                    rest.append(c)
+            out = keep + rng.sample(rest, min(len(rest), 4))
         return out
 
     def error_cases(self, e):
@@ -588,12 +599,50 @@ class Real:
 
 # --------------------------------------------------------------------------------------------------------- programs
 
+SCRATCH = 0x500     # words saved before a branch point (slot kind "m")
+
+
+def slot_items(asm, s):
+    """code pushing one calldata word of a cheatcode call:
+       int | ("v", i) CALLDATALOAD of a_i | ("m", i) the copy of a_i saved at SCRATCH before the branch point |
+       ("eq", src, c) src == c | ("ne", src, c) src != c"""
+    if isinstance(s, int):
+        return [("push", s % W)]
+    if s[0] == "v":
+        return asm.calldata_arg(s[1])
+    if s[0] == "m":
+        return [("push", SCRATCH + 32 * s[1]), "MLOAD"]
+    if s[0] in ("eq", "ne"):
+        return slot_items(asm, s[1]) + [("push", s[2] % W), "EQ"] + (["ISZERO"] if s[0] == "ne" else [])
+    raise ValueError(s)
+
+
+def slot_value(s, vals):
+    if isinstance(s, int):
+        return s % W
+    if s[0] in ("v", "m"):
+        return vals[s[1]] % W
+    v = int(slot_value(s[1], vals) == s[2] % W)
+    return v if s[0] == "eq" else 1 - v
+
+
+def slot_vars(s):
+    if isinstance(s, int):
+        return []
+    if s[0] in ("v", "m"):
+        return [s[1]]
+    return slot_vars(s[1])
+
+
+def concretized(case, vals):
+    return Case(case.sel, [slot_value(x, vals) for x in case.slots], case.n, case.tag, case.sig)
+
+
 def build_call(asm, case, ret_size=32):
     """memory image of the calldata at MEM, then CALL the cheatcode address; leaves the success flag on the stack"""
     items = asm.selector_word(case.sel) + [("push", MEM), "MSTORE"]
     for i, s in enumerate(case.slots):
-        w = asm.calldata_arg(s[1]) if isinstance(s, tuple) else [("push", s % W)]
-        items += w + [("push", MEM + 4 + 32 * i), "MSTORE"]
+        items += slot_items(asm, s) + [("push", MEM + 4 + 32 * i), "MSTORE"]
     # beyond the slots the calldata bytes must be zero (Case.image): clear what an earlier call may have left
     extra = case.size() - (4 + 32 * len(case.slots))
     k = 0
@@ -617,6 +666,137 @@ def inner_code(asm, script, static):
     items += ([("push", 0)] if static else [("push", 1), "SLOAD"]) + [("push", OUT + 0x60), "MSTORE"]
     items += [("push", MEM), "MLOAD", ("push", OUT + 0x80), "MSTORE", ("push", 0xA0), ("push", OUT), "RETURN"]
     return asm.assemble(items)
+
+
+@dataclass
+class BranchProg:
+    """if (a_b != 0) { taken arm } else { fall-through arm }: two sibling paths from one JUMPI on an unrelated symbol.
+    The fall-through side is explored first by the engine; whatever a cheatcode does on one side must not be visible on
+    the other.  `saved`: variables copied to SCRATCH before the branch point (slot kind "m")."""
+    bvar: int
+    fall: list            # cheatcode calls on the fall-through side (a_b == 0)
+    taken: list           # cheatcode calls on the taken side (a_b != 0)
+    saved: list
+    nargs: int
+    tag: str = ""
+
+    def arm(self, args):
+        return self.taken if args[self.bvar] % W != 0 else self.fall
+
+    def script_for(self, args):
+        return [concretized(c, args) for c in self.arm(args)]
+
+    def all_cases(self):
+        return self.fall + self.taken
+
+    def to_json(self):
+        def cj(c):
+            return {"sel": hex(c.sel), "slots": json.loads(json.dumps(c.slots)), "n": c.n, "tag": c.tag, "sig": c.sig}
+        return {"bvar": self.bvar, "fall": [cj(c) for c in self.fall], "taken": [cj(c) for c in self.taken], "saved": self.saved,
+                "nargs": self.nargs, "tag": self.tag}
+
+    @staticmethod
+    def from_json(d):
+        def tup(x):
+            return tuple(tup(y) for y in x) if isinstance(x, list) else x
+
+        def cf(c):
+            return Case(int(c["sel"], 16), [tup(x) for x in c["slots"]], c.get("n"), c.get("tag", ""), c.get("sig"))
+        return BranchProg(d["bvar"], [cf(c) for c in d["fall"]], [cf(c) for c in d["taken"]], d["saved"], d["nargs"], d.get("tag", ""))
+
+
+def branch_inner_code(asm, bp, static):
+    items = []
+    if not static:
+        items += [("push", 0x77), ("push", 1), "SSTORE"]
+    items += [("push", MARKER, 32), ("push", RET_OFF), "MSTORE"]
+    for i in bp.saved:
+        items += asm.calldata_arg(i) + [("push", SCRATCH + 32 * i), "MSTORE"]
+    lt, le = asm.fresh("taken"), asm.fresh("end")
+    items += asm.calldata_arg(bp.bvar) + [("ref", lt), "JUMPI"]
+
+    def arm(script):
+        out = []
+        for j, case in enumerate(script):
+            out += build_call(asm, case)
+            out += ["POP"] if j < len(script) - 1 else []
+        return out
+
+    items += arm(bp.fall) + [("ref", le), "JUMP", ("label", lt)] + arm(bp.taken) + [("label", le)]
+    items += [("push", OUT), "MSTORE", "RETURNDATASIZE", ("push", OUT + 0x20), "MSTORE", ("push", RET_OFF), "MLOAD", ("push", OUT + 0x40), "MSTORE"]
+    items += ([("push", 0)] if static else [("push", 1), "SLOAD"]) + [("push", OUT + 0x60), "MSTORE"]
+    items += [("push", MEM), "MLOAD", ("push", OUT + 0x80), "MSTORE", ("push", 0xA0), ("push", OUT), "RETURN"]
+    return asm.assemble(items)
+
+
+def build_branch_scenario(D, asm, bp, chain):
+    static = "STATICCALL" in chain
+    contracts = {}
+    addrs = [D.MAIN] + [0x2000 + k for k in range(len(chain))]
+    for k, op in enumerate(chain):
+        contracts[addrs[k]] = wrapper_code(asm, addrs[k + 1], op)
+    contracts[addrs[len(chain)]] = branch_inner_code(asm, bp, static)
+    return D.Scenario(contracts, nargs=bp.nargs, name="c13-branch", meta={"chain": chain})
+
+
+def branch_programs(ctx, G, entries):
+    """assume-on-one-branch / assert-on-the-sibling (and assert/assert): x = a0, c a constant, b = a1 the branch symbol"""
+    rng = G.rng
+    by_sig = {e["sig"]: e["sel"] for e in entries}
+    X, B = 0, 1
+    progs = []
+    sib_sigs = ["assertEq(uint256,uint256)", "assertNotEq(uint256,uint256)", "assertLt(uint256,uint256)", "assertGe(int256,int256)",
+                "assertLe(int256,int256)", "assertGt(uint256,uint256)", "assertEq(bytes32,bytes32)", "assertEq(address,address)"]
+    consts = [5, 0, 1, W - 1, 1 << 255, G.word()]
+    k = 0
+    for load in ("v", "m"):                     # sibling loads x after the branch point / uses the copy saved before it
+        for assume_on_fall in (True, False):    # which side runs vm.assume(x == c)
+            for sig in (sib_sigs if ctx.tier != "quick" else sib_sigs[:4] + [rng.choice(sib_sigs[4:])]):
+                c = consts[k % len(consts)]
+                k += 1
+                src = (load, X)
+                assume = Case(ASSUME_SEL, [("eq", ("v", X), c)], tag="br-assume", sig="assume(bool)")
+                sib = [Case(by_sig[sig], [src, c], tag="br-assert", sig=sig)]
+                if rng.random() < 0.3:
+                    sib.append(Case(by_sig["assertTrue(bool)"], [("eq", src, c)], tag="br-assertTrue", sig="assertTrue(bool)"))
+                arm_a = [assume] + ([Case(by_sig["assertEq(uint256,uint256)"], [("v", X), c], tag="br-assert", sig="assertEq(uint256,uint256)")]
+                                    if rng.random() < 0.4 else [])
+                fall, taken = (arm_a, sib) if assume_on_fall else (sib, arm_a)
+                progs.append(BranchProg(B, fall, taken, [X] if load == "m" else [], 2,
+                                        tag=f"assume-{'fall' if assume_on_fall else 'taken'}|{sig}|x-{'after' if load == 'v' else 'before'}"))
+    # assert on one side, different assert on the sibling (a failing fork on one side must not constrain the other)
+    for _ in range(ctx.scale(4, 16)):
+        s1, s2 = rng.choice(sib_sigs), rng.choice(sib_sigs)
+        c1, c2 = rng.choice(consts), rng.choice(consts)
+        progs.append(BranchProg(B, [Case(by_sig[s1], [("v", X), c1], tag="br-assert", sig=s1)],
+                                [Case(by_sig[s2], [(rng.choice("vm"), X), c2], tag="br-assert", sig=s2)], [X], 2, tag=f"assert|assert"))
+    return progs
+
+
+def branch_inputs(ctx, D, G, bp, scn, sr):
+    consts = sorted({s[2] % W for c in bp.all_cases() for s in c.slots if isinstance(s, tuple) and s[0] in ("eq", "ne")} |
+                    {s % W for c in bp.all_cases() for s in c.slots if isinstance(s, int)})
+    xs = []
+    for c in consts:
+        xs += [c, (c + 1) % W, (c - 1) % W]
+    xs += [7, G.word(), G.word()]
+    out, seen = [], set()
+    for x in xs:
+        for b in (0, 1, G.rng.choice([2, W - 1, 1 << 255])):
+            if (x, b) not in seen:
+                seen.add((x, b))
+                out.append(D.Inputs([x, b], 0xCAFE, 0xCAFE, 0, {}, 0))
+                ctx.count("l2-input:branch-directed")
+    budget = time.time() + 0.6
+    for p in sr.paths:
+        if time.time() > budget:
+            break
+        for m in D.solve_inputs(p.conds, scn, n=1, timeout_ms=300):
+            if tuple(m.args) not in seen:
+                seen.add(tuple(m.args))
+                out.append(D.Inputs(list(m.args), 0xCAFE, 0xCAFE, 0, {}, 0))
+                ctx.count("l2-input:path-model")
+    return out
 
 
 def wrapper_code(asm, target, op):
@@ -720,6 +900,26 @@ PI_BUILDERS = {
 
 # --------------------------------------------------------------------------------------------------------- level 1
 
+class Truth(dict):
+    """a level-1 record; rec["cc"] / rec["cn"] = is π ∧ cond / π ∧ ¬cond satisfiable (own z3 query, computed on demand)"""
+
+    def __init__(self, d, R):
+        super().__init__(d)
+        self._R = R
+
+    def __missing__(self, k):
+        if k not in ("cc", "cn"):
+            raise KeyError(k)
+        R, res = self._R, self["res"]
+        cond = res.get("cond")
+        if cond is None:
+            v = "sat"
+        else:
+            v = R.sat(res["pi"] + [cond if k == "cc" else R.z3.Not(cond)])
+        self[k] = v
+        return v
+
+
 def level1(ctx, R, G, entries, by_sel):
     """direct calls of the real handle(); returns records (case, pi, result, envs, request indices)"""
     recs, lines = [], []
@@ -740,10 +940,7 @@ def level1(ctx, R, G, entries, by_sel):
             res = R.direct(case, PI_BUILDERS[pname])
             envs = G.envs(case, ctx.scale(4, 8))
             cond = res.get("cond")
-            cc = cn = "sat"
-            if cond is not None:
-                cc = R.sat(res["pi"] + [cond])
-                cn = R.sat(res["pi"] + [R.z3.Not(cond)])
+            cc = cn = "sat"       # the true satisfiability answers are computed lazily (Truth) — only mismatch analysis needs them
             idx = []
             orc = res.get("oracle", [])
             occ, ocn = (orc[0] if orc else cc), (orc[1] if len(orc) > 1 else cn)
@@ -751,7 +948,7 @@ def level1(ctx, R, G, entries, by_sel):
                 idx.append(len(lines))
                 lines.append(request(case, vals, occ, ocn))
             ctx.count(f"l1-oracle:{occ}/{ocn if len(orc) > 1 else '-'}" if cond is not None else "l1-oracle:none")
-            recs.append({"case": case, "pi": pname, "res": res, "envs": envs, "idx": idx, "cc": cc, "cn": cn})
+            recs.append(Truth({"case": case, "pi": pname, "res": res, "envs": envs, "idx": idx}, R))
             ctx.count("l1:" + (case.tag.split("-")[0] if case.tag else "?"))
     return recs, lines
 
@@ -935,6 +1132,11 @@ def level2_programs(ctx, G, entries):
                 e = rng.choice(un_entries)
                 script.append(Case(e["sel"], [V(rng.randrange(3))], tag="seq-unary", sig=e["sig"]))
         progs.append((script, rng.choice(chains)))
+    # sibling paths from one branch point
+    for bp in branch_programs(ctx, G, entries):
+        progs.append((bp, []))
+        if ctx.tier != "quick" or rng.random() < 0.5:
+            progs.append((bp, rng.choice([ch for ch in chains if ch])))
     return progs
 
 
@@ -987,6 +1189,28 @@ def run_level2(ctx, R, D, asm, G, progs, by_sel):
     lines = []
     evm_jobs = []
     for script, chain in progs:
+        if isinstance(script, BranchProg):
+            bp = script
+            scn = build_branch_scenario(D, asm, bp, chain)
+            sr = D.symbolic_run(scn)
+            ctx.count(f"l2-depth:{len(chain)}")
+            ctx.count("l2-branch-programs")
+            inputs = branch_inputs(ctx, D, G, bp, scn, sr)
+            rec = {"scn": scn, "script": bp.all_cases(), "branch": bp, "chain": chain, "sr": sr, "inputs": inputs, "idx": [], "evm": [],
+                   "scripts": []}
+            for inp in inputs:
+                cs = bp.script_for(inp.args)
+                rec["scripts"].append(cs)
+                row = []
+                for c in cs:
+                    row.append(len(lines))
+                    lines.append(request(c, [], "sat", "sat"))
+                rec["idx"].append(row)
+            for k, inp in enumerate(inputs[: ctx.scale(2, 4)]):
+                rec["evm"].append((k, len(evm_jobs)))
+                evm_jobs.append((scn, inp))
+            jobs.append(rec)
+            continue
         scn = build_scenario(D, asm, script, chain)
         sr = D.symbolic_run(scn)
         ctx.count(f"l2-depth:{len(chain)}")
@@ -1014,15 +1238,23 @@ def check_level2(ctx, R, D, jobs, replies, concs, by_sel):
     FailCheatcode = R.exceptions.FailCheatcode
     for rec in jobs:
         scn, script, chain, sr = rec["scn"], rec["script"], rec["chain"], rec["sr"]
+        bp = rec.get("branch")
         e0 = by_sel.get(script[0].sel)
-        kl = ("seq" if len(script) > 1 else klass(e0) if (e0 or script[0].sel == ASSUME_SEL) else "other") + (":nested" if chain else "")
-        replay = {"level": 2, "script": [c.to_json() for c in script], "chain": chain,
-                  "contracts": {hex(a): c.hex() for a, c in scn.contracts.items()}, "nargs": scn.nargs}
+        if bp is not None:
+            kl = "branch:" + bp.tag.split("|")[0] + (":nested" if chain else "")
+            replay = {"level": 2, "branch": bp.to_json(), "chain": chain,
+                      "contracts": {hex(a): c.hex() for a, c in scn.contracts.items()}, "nargs": scn.nargs}
+        else:
+            kl = ("seq" if len(script) > 1 else klass(e0) if (e0 or script[0].sel == ASSUME_SEL) else "other") + (":nested" if chain else "")
+            replay = {"level": 2, "script": [c.to_json() for c in script], "chain": chain,
+                      "contracts": {hex(a): c.hex() for a, c in scn.contracts.items()}, "nargs": scn.nargs}
         evm_of = dict(rec["evm"])
+        whole = script
         for k, (inp, row) in enumerate(zip(rec["inputs"], rec["idx"])):
+            script = rec["scripts"][k] if bp is not None else whole      # the calls this input executes
             rps = [parse_reply(replies[i]) for i in row]
             rp_json = dict(replay, inputs=[hex(v) for v in inp.args], lean=[replies[i] for i in row])
-            ctx.case(("l2", tuple(c.key() for c in script), tuple(chain), tuple(inp.args)))
+            ctx.case(("l2", tuple(c.key() for c in whole), tuple(chain), tuple(inp.args)))
             outs = []
             for c, rp in zip(script, rps):
                 m = rp.get("model", "")
@@ -1215,10 +1447,23 @@ def replay_one(ctx, R, D, asm, data, by_sel):
         cc = cn = "sat"
         if cond is not None:
             cc, cn = R.sat(res["pi"] + [cond]), R.sat(res["pi"] + [R.z3.Not(cond)])
-        rec = {"case": case, "pi": data.get("pi", "none"), "res": res, "envs": [vals], "idx": [0], "cc": cc, "cn": cn}
+        rec = Truth({"case": case, "pi": data.get("pi", "none"), "res": res, "envs": [vals], "idx": [0]}, R)
         orc = res.get("oracle", [])
         replies = ctx.lean("Assertions").ask([request(case, vals, orc[0] if orc else cc, orc[1] if len(orc) > 1 else cn)])
         check_level1(ctx, R, [rec], replies, by_sel)
+    elif data.get("level") == 2 and "branch" in data:
+        bp = BranchProg.from_json(data["branch"])
+        scn = build_branch_scenario(D, asm, bp, data["chain"])
+        sr = D.symbolic_run(scn)
+        args = [int(v, 16) for v in data["inputs"]]
+        inp = D.Inputs(args, 0xCAFE, 0xCAFE, 0, {}, 0)
+        cs = bp.script_for(args)
+        lines = [request(c, [], "sat", "sat") for c in cs]
+        replies = ctx.lean("Assertions").ask(lines)
+        concs = D.run_concrete_batch(ctx, [(scn, inp)])
+        rec = {"scn": scn, "script": bp.all_cases(), "branch": bp, "chain": data["chain"], "sr": sr, "inputs": [inp],
+               "idx": [list(range(len(lines)))], "evm": [(0, 0)], "scripts": [cs]}
+        check_level2(ctx, R, D, [rec], replies, concs, by_sel)
     elif data.get("level") == 2:
         script = [Case.from_json(c) for c in data["script"]]
         scn = build_scenario(D, asm, script, data["chain"])
@@ -1270,7 +1515,7 @@ def correspond(ctx):
     ctx.extra["level2_programs"] = len(progs)
     ctx.extra["level2_wall_s"] = round(time.time() - t1, 1)
     sel_l1 = {r["case"].sel for r in recs}
-    sel_l2 = {c.sel for s, _ in progs for c in s}
+    sel_l2 = {c.sel for s, _ in progs for c in (s.all_cases() if isinstance(s, BranchProg) else s)}
     missing = [hex(e["sel"]) for e in entries if e["sel"] not in sel_l1 or e["sel"] not in sel_l2]
     if missing or ASSUME_SEL not in sel_l1 or ASSUME_SEL not in sel_l2:
         raise RuntimeError(f"selectors not exercised: {missing}")
